@@ -43,7 +43,7 @@ EXACT = (0.0, 0.0)
 TOL = (1e-9, 1e-12)
 # scikit-learn computes euclidean distances as ||x||^2 - 2 x.c + ||c||^2: the
 # cancellation error depends on the batch shape (relative 1e-8 observed)
-TOL_DIST = (1e-6, 1e-8)
+TOL_DIST = (1e-6, 1e-6)  # sqrt of a cancellation error ~eps*|x|^2 near a centre: ~1e-8*|x| absolute
 
 PLinReg = P.make_peer(LinearRegression)
 PLogReg = P.make_peer(LogisticRegression)
